@@ -338,6 +338,13 @@ def _run_getind(desc):
                 if ind.score(trials[k]) != int(want[k].sum()):
                     sh.violation("indexer.score:count", case, {"got": int(ind.score(trials[k])), "expected": int(want[k].sum())})
                     return sh
+                if L == 1:
+                    # the tolerance given explicitly (other than the object's own)
+                    for t2 in (0.01, 0.1, 0.3):
+                        o2 = oracle(trials[k], gv, t2)
+                        if "sel" in o2 and ind.score(trials[k], t2) != o2["n"]:
+                            sh.violation("indexer.score[explicit tolerance]:count", dict(case, tol=t2), {"got": int(ind.score(trials[k], t2)), "expected": o2["n"]})
+                            return sh
                 sh.evaluations += 1
                 if L > 1 and len(set(seq)) > 1:
                     sh.nontrivial += 1
@@ -349,6 +356,12 @@ def _run_getind(desc):
         ind.ubis = [trials[k].copy() for k in order]
         ind.fight_over_peaks()
         case = {"kind": "getind", "ubi": ui, "sequence": list(order), "scratch_arrays_passed": "fight_over_peaks"}
+        # a label that no peak carries (a duplicate that lost every peak, a grain number beyond the list): count 0, mean error 0, matrix untouched
+        u_none = ind.ubis[0].copy()
+        n0, m0 = cI.refine_assigned(u_none, ind.gv, ind.ga, len(order) + 3)
+        if n0 != 0 or not (m0 == 0.0) or not np.array_equal(u_none, ind.ubis[0]):
+            sh.violation("refine_assigned[label nobody carries]:count-mean-or-matrix", case, {"n": int(n0), "mean": float(m0)})
+            return sh
         for pos in range(len(order)):
             carrying = int((np.asarray(ind.ga) == pos).sum())
             npk, _ = cI.refine_assigned(ind.ubis[pos].copy(), ind.gv, ind.ga, pos)
